@@ -156,6 +156,8 @@ def verify_contract(qn, timeout_ms, only_variant=None):
                 ob.path_index = pi
                 if getattr(p, "no_invariant", None):
                     ob.info = dict(ob.info or {}, no_invariant=sorted(set(p.no_invariant)))
+                if getattr(p, "unsure", False) and ob.kind == "canary":
+                    ob.info = dict(ob.info or {}, unsure=True)
                 obs.append((ob, getattr(p, "param_terms", {}), getattr(p, "param_recipes", {})))
             for ob, params, recipes in obs:
                 if ob.kind == "unsupported":
@@ -754,7 +756,7 @@ def summarise(prop, tier, results, wall, contracts):
         for ob in r["obligations"]:
             if ob["kind"] == "canary":
                 canaries[ob["status"]] = canaries.get(ob["status"], 0) + 1
-                if ob["status"] == "dead" and not contracts[r["qualname"]].frame_only:
+                if ob["status"] == "dead" and not contracts[r["qualname"]].frame_only and not (ob.get("info") or {}).get("unsure"):
                     faults.append(f"vacuity: canary of {ob['name']} is provable (contradictory assumptions)")
                 continue
             n_ob += 1
